@@ -1,6 +1,8 @@
 package main
 
 import (
+	"os"
+	"encoding/json"
 	"fmt"
 	"strings"
 	"time"
@@ -112,6 +114,24 @@ func runC14(r *Run) {
 		}
 		T := got[0]
 		b := in.Common.FriParams.Config.ProofOfWorkBits
+		// the difficulty the circuit description document states (both copies of the FRI configuration)
+		if raw, err := os.ReadFile(instancePaths(r.Repo)[in.Base][2]); err == nil {
+			var doc struct {
+				Config struct {
+					FriConfig struct {
+						Pow uint64 `json:"proof_of_work_bits"`
+					} `json:"fri_config"`
+				} `json:"config"`
+				FriParams struct {
+					Config struct {
+						Pow uint64 `json:"proof_of_work_bits"`
+					} `json:"config"`
+				} `json:"fri_params"`
+			}
+			if json.Unmarshal(raw, &doc) == nil && doc.Config.FriConfig.Pow == doc.FriParams.Config.Pow && gotBits[0] != doc.FriParams.Config.Pow {
+				r.addViolationStructural("proof-of-work difficulty", fmt.Sprintf("%s: the proof-of-work check uses difficulty %d, the circuit description document says proof_of_work_bits = %d", in.Name, gotBits[0], doc.FriParams.Config.Pow))
+			}
+		}
 		if gotBits[0] != b {
 			r.addViolationStructural("proof-of-work difficulty", fmt.Sprintf("%s: the proof-of-work check uses difficulty %d, the circuit description says %d", in.Name, gotBits[0], b))
 		}
